@@ -826,11 +826,73 @@ def P_seqLegacy (m : SeqMon) (n : Bytes) (out : CallOut) : Prop :=
 /-- *Refused ⇒ untouched*: a call that fails reached no tool handler. -/
 def P_seqQuiet (out : CallOut) : Prop := ∀ code, out ≠ .notOk code false
 
+/-- *the mirror is that of the server that serves the request*: on a 2026-07-28 session, a call routed to the handler's
+second server — valid annotations, valid arguments — by a client that has just listed that server's tools goes through
+and carries exactly the `Mcp-Param-*` headers THAT server's definition demands. -/
+def P_seqCallB (c : B64) (m : SeqMon) (n : Bytes) (a : Args) (hdrs : ParamHdrs) (out : CallOut) : Prop :=
+  m.newProto = true → ∀ ps, toolDef m.serverB n = some ps → ToolValid ps → ArgsValidDoc ps a →
+    out = .okSame ∧ P_generated c ps a hdrs
+
+def P_seqLegacyB (m : SeqMon) (n : Bytes) (out : CallOut) : Prop :=
+  m.newProto = false → (toolDef m.serverB n).isSome = true → out = .okSame
+
+theorem sound_seq_callB {c : B64} {m : SeqMon} {n : Bytes} {a : Args} {hdrs : ParamHdrs} {out : CallOut} {cl : Clause}
+    (h : (seqMonStep c m (.callB n a) (.called hdrs out)).2 = some cl) :
+    ((cl = .seqOtherServer ∨ cl = .seqAgree ∨ (∃ b, cl = .genMirror b) ∨ cl = .genUnbound) ∧
+        ¬ P_seqCallB c m n a hdrs out) ∨
+    (cl = .seqLegacy ∧ ¬ P_seqLegacyB m n out) ∨
+    (cl = .e2eReached ∧ ¬ P_seqQuiet out) := by
+  simp only [seqMonStep] at h
+  have hreach : ∀ {o : CallOut}, (match o with | .notOk _ false => some Clause.e2eReached | _ => none) = some cl →
+      cl = .e2eReached ∧ ¬ P_seqQuiet o := by
+    intro o ho
+    split at ho
+    · cases ho
+      exact ⟨rfl, fun hP => hP _ rfl⟩
+    · cases ho
+  split at h
+  · rename_i ps hps
+    split at h
+    · rename_i hp
+      split at h
+      · rename_i hc
+        simp only [Bool.and_eq_true] at hc
+        obtain ⟨htv, hav⟩ := hc
+        have htv' := (toolValidB_iff ps).mp htv
+        have hav' := (argsValidB_iff ps a).mp hav
+        left
+        split at h
+        · rename_i hne
+          refine ⟨?_, fun hP => ?_⟩
+          · split at h <;> cases h
+            · exact Or.inl rfl
+            · exact Or.inr (Or.inl rfl)
+          · have := (hP hp ps hps htv' hav').1
+            rw [this] at hne
+            simp at hne
+        · rename_i hg0
+          refine ⟨?_, fun hP => sound_gen h ((hP hp ps hps htv' hav').2)⟩
+          obtain ⟨_, _, hcase⟩ := genMonitor_fires h
+          rcases hcase with ⟨b, _, hb, _⟩ | ⟨hb, _⟩
+          · exact Or.inr (Or.inr (Or.inl ⟨b, hb⟩))
+          · exact Or.inr (Or.inr (Or.inr hb))
+      · exact Or.inr (Or.inr (hreach h))
+    · rename_i hp
+      split at h
+      · rename_i hne
+        cases h
+        refine Or.inr (Or.inl ⟨rfl, fun hP => ?_⟩)
+        have := hP (by simpa using hp) (by simp [hps])
+        rw [this] at hne
+        simp at hne
+      · cases h
+  · exact Or.inr (Or.inr (hreach h))
+
 /-- *list_changed beats the cache*: on a 2026-07-28 session, once the client has handled a list_changed that followed the
 server's last change of its tools, a `ListTools` answered from the client's cache (the server was not asked) returns the
 server's current page — the definitions `CallTool` takes the `Mcp-Param-*` mirror from are the server's. -/
 def P_seqList (m : SeqMon) (k : Bytes) (hit : Bool) (tools : Tools) : Prop :=
-  m.newProto = true → m.fresh = true → hit = true → tools = (serverPage m.server m.pageSize k).1
+  m.newProto = true → m.fresh = true → hit = true → tools = monPage m k
 
 theorem sound_staleHit {m : SeqMon} {k : Bytes} {hit : Bool} {tools : Tools} {cl : Clause}
     (h : staleHit m k hit tools = some cl) : cl = .seqStaleList ∧ ¬ P_seqList m k hit tools := by
@@ -843,32 +905,101 @@ theorem sound_staleHit {m : SeqMon} {k : Bytes} {hit : Bool} {tools : Tools} {cl
     exact ⟨rfl, fun hP => hne (hP hp hf hh)⟩
   · cases h
 
-/-- A clause on a `list` / `listSend` / `listRecv` record is `seqStaleList`, and the record refutes `P_seqList`. -/
+/-- *filterValidTools*: a tools/list result the client fetched and hands on names no tool the server lists with invalid
+`x-mcp-header` annotations. -/
+def P_seqFiltered (m : SeqMon) (hit : Bool) (tools : Tools) : Prop :=
+  hit = false → ∀ t ∈ tools, m.bad.contains t.1 = false
+
+theorem sound_badListed {m : SeqMon} {hit : Bool} {tools : Tools} {cl : Clause}
+    (h : badListed m hit tools = some cl) : cl = .seqBadListed ∧ ¬ P_seqFiltered m hit tools := by
+  unfold badListed at h
+  split at h
+  · rename_i hcnd
+    simp only [Bool.and_eq_true, Bool.not_eq_true', List.any_eq_true] at hcnd
+    obtain ⟨hh, t, ht, hb⟩ := hcnd
+    cases h
+    refine ⟨rfl, fun hP => ?_⟩
+    have := hP hh t ht
+    rw [hb] at this
+    cases this
+  · cases h
+
+/-- A clause on a `list` / `listSend` record is `seqStaleList` or `seqBadListed`, and the record refutes the predicate. -/
 theorem sound_seq_list {c : B64} {m : SeqMon} {k : Bytes} {hit : Bool} {tools : Tools} {next : Bytes} {cl : Clause} :
     ((seqMonStep c m (.list k) (.listed hit tools next)).2 = some cl ∨
      (seqMonStep c m (.listSend k) (.listed hit tools next)).2 = some cl) →
-    cl = .seqStaleList ∧ ¬ P_seqList m k hit tools := by
+    (cl = .seqStaleList ∧ ¬ P_seqList m k hit tools) ∨ (cl = .seqBadListed ∧ ¬ P_seqFiltered m hit tools) := by
   rintro (h | h)
   · simp only [seqMonStep] at h
     split at h
-    · cases h
-    · exact sound_staleHit h
+    · exact Or.inr (sound_badListed h)
+    · cases hb : badListed m hit tools with
+      | some x =>
+        simp only [hb, Option.orElse] at h
+        cases h
+        exact Or.inr (sound_badListed hb)
+      | none =>
+        simp only [hb, Option.orElse] at h
+        exact Or.inl (sound_staleHit h)
   · simp only [seqMonStep] at h
-    exact sound_staleHit h
+    exact Or.inl (sound_staleHit h)
 
-/-- The arrival of a response in flight raises no clause (what it teaches the client is judged at the later records). -/
-theorem seq_recv_no_clause {c : B64} {m : SeqMon} (o : SeqObs) : (seqMonStep c m .listRecv o).2 = none := by
-  cases o <;> simp only [seqMonStep]
-  cases m.pend with
-  | none => rfl
+/-- The arrival of a response in flight raises only `seqBadListed`. -/
+theorem sound_seq_recv {c : B64} {m : SeqMon} {hit : Bool} {tools : Tools} {next : Bytes} {cl : Clause}
+    (h : (seqMonStep c m .listRecv (.listed hit tools next)).2 = some cl) :
+    cl = .seqBadListed ∧ ¬ P_seqFiltered m false tools := by
+  simp only [seqMonStep] at h
+  split at h
+  · exact sound_badListed h
+  · cases h
+
+/-- A tool listed with invalid annotations (after a handled list_changed that followed the last change): no mirror … -/
+def P_seqBadMirror (m : SeqMon) (n : Bytes) (hdrs : ParamHdrs) : Prop :=
+  m.newProto = true → m.fresh = true → m.bad.contains n = true → hdrs = []
+
+/-- … and the call still goes through where the server's registered definition demands no header for the arguments. -/
+def P_seqBadCall (c : B64) (m : SeqMon) (n : Bytes) (a : Args) (out : CallOut) : Prop :=
+  m.newProto = true → m.fresh = true → m.bad.contains n = true → ∀ ps, toolDef m.server n = some ps → ToolValid ps →
+    ArgsValidDoc ps a → generateParamHeaders c ps a = [] → out = .okSame
+
+theorem sound_badCall {c : B64} {m : SeqMon} {n : Bytes} {a : Args} {hdrs : ParamHdrs} {out : CallOut} {cl : Clause}
+    (h : badCall c m n a hdrs out = some cl) :
+    (cl = .seqBadMirror ∧ ¬ P_seqBadMirror m n hdrs) ∨ (cl = .seqBadCall ∧ ¬ P_seqBadCall c m n a out) := by
+  unfold badCall at h
+  split at h
+  · rename_i hcnd
+    simp only [Bool.and_eq_true] at hcnd
+    obtain ⟨⟨hp, hf⟩, hb⟩ := hcnd
+    split at h
+    · rename_i hne
+      cases h
+      refine Or.inl ⟨rfl, fun hP => ?_⟩
+      rw [hP hp hf hb] at hne
+      simp at hne
+    · split at h
+      · rename_i ps hps
+        split at h
+        · rename_i hc2
+          simp only [Bool.and_eq_true, List.isEmpty_iff, bne_iff_ne, ne_eq] at hc2
+          obtain ⟨⟨⟨htv, hav⟩, hg⟩, hne⟩ := hc2
+          cases h
+          exact Or.inr ⟨rfl, fun hP => hne (hP hp hf hb ps hps ((toolValidB_iff ps).mp htv) ((argsValidB_iff ps a).mp hav) hg)⟩
+        · cases h
+      · cases h
+  · cases h
+
+/-- A clause on a `call` record comes from one of the two readings. -/
+theorem seq_call_clause {c : B64} {m : SeqMon} {n : Bytes} {a : Args} {hdrs : ParamHdrs} {out : CallOut} {cl : Clause}
+    (h : (seqMonStep c m (.call n a) (.called hdrs out)).2 = some cl) :
+    badCall c m n a hdrs out = some cl ∨ callClause c m n a hdrs out = some cl := by
+  simp only [seqMonStep] at h
+  cases hb : badCall c m n a hdrs out with
   | some x =>
-    obtain ⟨ch, nt⟩ := x
-    simp only []
-    split
-    · rfl
-    · split
-      · rfl
-      · split <;> rfl
+    simp only [hb, Option.orElse] at h
+    exact Or.inl (by rw [h])
+  | none =>
+    simp only [hb, Option.orElse] at h
+    exact Or.inr h
 
 theorem sound_seq_look {c : B64} {m : SeqMon} {n : Bytes} {defs : List (Option Props)} {cl : Clause}
     (h : (seqMonStep c m (.look n) (.looked defs)).2 = some cl) :
@@ -890,12 +1021,12 @@ theorem sound_seq_look {c : B64} {m : SeqMon} {n : Bytes} {defs : List (Option P
   · cases h
 
 theorem sound_seq_call {c : B64} {m : SeqMon} {n : Bytes} {a : Args} {hdrs : ParamHdrs} {out : CallOut} {cl : Clause}
-    (h : (seqMonStep c m (.call n a) (.called hdrs out)).2 = some cl) :
+    (h : callClause c m n a hdrs out = some cl) :
     ((cl = .seqRefusedExact ∨ cl = .seqStaleCall ∨ cl = .seqLostCall ∨ cl = .seqAgree ∨ (∃ b, cl = .genMirror b) ∨ cl = .genUnbound) ∧
         ¬ P_seqCall c m n a hdrs out) ∨
     (cl = .seqLegacy ∧ ¬ P_seqLegacy m n out) ∨
     (cl = .e2eReached ∧ ¬ P_seqQuiet out) := by
-  simp only [seqMonStep] at h
+  simp only [callClause] at h
   have hreach : ∀ {o : CallOut}, (match o with | .notOk _ false => some Clause.e2eReached | _ => none) = some cl →
       cl = .e2eReached ∧ ¬ P_seqQuiet o := by
     intro o ho
@@ -1003,6 +1134,11 @@ example : (seqMonStep idCodec wMon (.call wA wArgs) (.called [] (.notOk (some (-
     (seqMonStep idCodec wMon (.call wA wArgs) (.called wHdrs (.notOk (some (-32020)) true))).2 = some .seqRefusedExact ∧
     (seqMonStep idCodec { wMon with newProto := false } (.call wA wArgs) (.called [] (.notOk none true))).2 = some .seqLegacy ∧
     (seqMonStep idCodec { wMon with listed := [] } (.call wA wArgs) (.called [] (.notOk none false))).2 = some .e2eReached := by decide
+/-- Seeded change C12-m16, two servers behind one handler: the second server's `a` has no annotation, the client (rightly)
+sends no header, the handler refuses — judged by the first server's `a`. -/
+example : (seqMonStep idCodec { wMon with serverB := [(wA, wPlain)] } (.callB wA wArgs) (.called [] (.notOk (some (-32020)) true))).2 = some .seqOtherServer ∧
+    (seqMonStep idCodec { wMon with serverB := [(wA, wPlain)] } (.callB wA wArgs) (.called [] .okSame)).2 = none ∧
+    (seqMonStep idCodec { wMon with serverB := [(wA, wProps)] } (.callB wA wArgs) (.called [] (.notOk (some (-32020)) true))).2 = some .seqAgree := by decide
 /-- Seeded change C12-m13 as the observer sees it: tool `a` listed (response in flight), re-registered with the annotation,
 list_changed handled, the overtaken response arrives; the next `ListTools` is answered from the cache with the OLD page. -/
 def wMonFresh : SeqMon :=
@@ -1017,6 +1153,13 @@ nothing (and it forgets) if the table changed since, the names otherwise. -/
 example : (seqMonStep idCodec { wMon with listed := [], pend := some (true, true) } .listRecv (.listed false [(wA, wPlain)] [])).1.listed = [] ∧
     (seqMonStep idCodec { wMon with pend := some (true, false) } .listRecv (.listed false [(wA, wPlain)] [])).1.listed = [] ∧
     (seqMonStep idCodec { wMon with listed := [], pend := some (false, false) } .listRecv (.listed false [(wA, wProps)] [])).1.listed = [wA] := by decide
+/-- A foreign server's invalid annotations as the observer judges them. -/
+example : (seqMonStep idCodec { wMonFresh with bad := [wA] } (.list []) (.listed false [(wA, wProps)] [])).2 = some .seqBadListed ∧
+    (seqMonStep idCodec { wMonFresh with bad := [wA] } (.list []) (.listed false [] [])).2 = none ∧
+    (seqMonStep idCodec { wMonFresh with bad := [wA] } (.call wA wArgs) (.called wHdrs .okSame)).2 = some .seqBadMirror ∧
+    (seqMonStep idCodec { wMonFresh with bad := [wA] } (.call wA wArgs) (.called [] (.notOk (some (-32020)) true))).2 = none ∧
+    (seqMonStep idCodec { wMonFresh with bad := [wA], server := [(wA, wPlain)] } (.call wA wArgs) (.called [] (.notOk (some (-32020)) true))).2 = some .seqBadCall ∧
+    (seqMonStep idCodec { wMonFresh with bad := [wA], server := [(wA, wPlain)] } (.call wA wArgs) (.called [] .okSame)).2 = none := by decide
 end witnesses
 
 end Preflight
